@@ -357,3 +357,75 @@ func soydocFor(vars []string) string {
 	}
 	return s + " */\n"
 }
+
+// exprS6: every context that splices an argument (unary operators, every argument position of
+// every function, bracket indices, ternary arms) x every low-precedence form of that argument
+// (ternary, elvis, and/or, comparison, arithmetic, unary), with operands of the type the context needs.
+func exprS6(emit func(stratum string, e *E)) {
+	T, F := lit("true", data.Bool(true)), lit("false", data.Bool(false))
+	pools := map[string][2]*E{
+		"num":  {lit("7", data.Int(7)), lit("3", data.Int(3))},
+		"flt":  {lit("1.55", data.Float(1.55)), lit("2.25", data.Float(2.25))},
+		"str":  {lit("'abc'", data.String("abc")), lit("'b'", data.String("b"))},
+		"list": {vr("l"), vr("l0")},
+		"map":  {vr("mp"), vr("m0")},
+		"bool": {T, F},
+		"idx":  {lit("0", data.Int(0)), lit("1", data.Int(1))},
+		"key":  {lit("'k'", data.String("k")), lit("'i'", data.String("i"))},
+	}
+	inner := func(typ string) []*E {
+		a, b := pools[typ][0], pools[typ][1]
+		out := []*E{a, tern(T, a, b), tern(F, a, b), tern(vr("z"), a, b), bin("?:", vr("n"), a), bin("?:", a, b), bin("?:", vr("und"), b)}
+		switch typ {
+		case "num", "flt", "idx":
+			out = append(out, bin("+", a, b), bin("-", a, b), bin("*", a, b), un("-", a), bin("%", lit("7", data.Int(7)), lit("4", data.Int(4))))
+		case "bool":
+			out = append(out, bin("and", a, b), bin("or", b, a), bin("==", lit("1", data.Int(1)), lit("1", data.Int(1))), bin("<", lit("1", data.Int(1)), lit("2", data.Int(2))), un("not", b), bin("!=", a, b))
+		case "str", "key":
+			out = append(out, bin("+", a, b))
+		}
+		return out
+	}
+	type ctx struct {
+		typ string
+		mk  func(x *E) *E
+	}
+	ctxs := []ctx{
+		{"num", func(x *E) *E { return un("-", x) }},
+		{"bool", func(x *E) *E { return un("not", x) }},
+		{"list", func(x *E) *E { return call("length", x) }},
+		{"num", func(x *E) *E { return call("isNonnull", x) }},
+		{"str", func(x *E) *E { return call("strContains", x, lit("'b'", data.String("b"))) }},
+		{"str", func(x *E) *E { return call("strContains", lit("'abc'", data.String("abc")), x) }},
+		{"flt", func(x *E) *E { return call("round", x, lit("1", data.Int(1))) }},
+		{"idx", func(x *E) *E { return call("round", lit("1.55", data.Float(1.55)), x) }},
+		{"flt", func(x *E) *E { return call("round", x) }},
+		{"flt", func(x *E) *E { return call("floor", x) }},
+		{"flt", func(x *E) *E { return call("ceiling", x) }},
+		{"num", func(x *E) *E { return call("max", x, lit("5", data.Int(5))) }},
+		{"num", func(x *E) *E { return call("min", lit("5", data.Int(5)), x) }},
+		{"map", func(x *E) *E { return call("length", call("keys", x)) }},
+		{"map", func(x *E) *E { return vr0(bin("?:", &E{K: "var", Op: "n"}, call("length", call("keys", call("augmentMap", x, &E{K: "map", Keys: []string{"z"}, A: []*E{lit("1", data.Int(1))}}))))) }},
+		{"idx", func(x *E) *E { return vr("l", Acc{Kind: "br", E: x}) }},
+		{"key", func(x *E) *E { return vr("mp", Acc{Kind: "br", E: x}) }},
+		{"bool", func(x *E) *E { return tern(x, lit("'y'", data.String("y")), lit("'n'", data.String("n"))) }},
+		{"num", func(x *E) *E { return bin("*", x, lit("2", data.Int(2))) }},
+		{"num", func(x *E) *E { return bin("-", lit("10", data.Int(10)), x) }},
+		{"num", func(x *E) *E { return bin("/", lit("12", data.Int(12)), x) }},
+		{"num", func(x *E) *E { return bin("<", x, lit("5", data.Int(5))) }},
+		{"num", func(x *E) *E { return bin("==", x, lit("7", data.Int(7))) }},
+		{"str", func(x *E) *E { return bin("+", lit("'<'", data.String("<")), x) }},
+		{"bool", func(x *E) *E { return bin("and", x, lit("true", data.Bool(true))) }},
+		{"bool", func(x *E) *E { return bin("or", lit("false", data.Bool(false)), x) }},
+		{"num", func(x *E) *E { return &E{K: "list", A: []*E{x, x}} }},
+		{"num", func(x *E) *E { return call("length", &E{K: "list", A: []*E{x, lit("1", data.Int(1))}}) }},
+		{"num", func(x *E) *E { return vr0(&E{K: "var", Op: "mp", Acc: []Acc{{Kind: "dot", Key: "l"}, {Kind: "br", E: bin("-", x, x)}}}) }},
+	}
+	for _, cx := range ctxs {
+		for _, in := range inner(cx.typ) {
+			emit("S6", cx.mk(in))
+			// two levels: the context inside another context of the result's use as a string
+			emit("S6", bin("+", lit("'='", data.String("=")), cx.mk(in)))
+		}
+	}
+}
